@@ -80,11 +80,10 @@ func (p *pnSpec) anytime() (time.Time, bool) {
 	if p.dc != nil {
 		return *p.dc, true
 	}
-	if p.ccKey != "" {
-		if p.fileThere && p.ft != nil {
-			return *p.ft, true
-		}
-		return p.ccDate, true
+	// (the "camliContent claim set time" fallback of Corpus.PermanodeTime is dead code: its `ok` is
+	// overwritten by the pnTimeAttr calls in between)
+	if p.ccKey != "" && p.fileThere && p.ft != nil {
+		return *p.ft, true
 	}
 	return p.modtime()
 }
@@ -535,15 +534,15 @@ func (g *gen) runWorld(kind string, n int, limits []int, aroundLimits []int) {
 			if !g.expectTimes(fmt.Sprintf("cc %d %s %s %s", i, p.ccKey, Nanos(p.ccDate), fts), p) {
 				return
 			}
-			if p.dc == nil {
-				r.Hit("content:time-from-camliContent-claim")
-			}
 			if rnd.Chance(40) {
 				p.fileThere = true
 				if !g.expectTimes("file "+p.ccKey, p) {
 					return
 				}
 				r.Hit("content:file-indexed-before-first-query")
+				if p.dc == nil && p.ft != nil {
+					r.Hit("content:sort-time-from-file")
+				}
 			} else {
 				late = append(late, p)
 			}
